@@ -40,21 +40,35 @@ struct Inst {
     contracts: Vec<String>,
     u: String,
     v: String,
+    denom: &'static str,
 }
 
 fn fresh() -> Inst {
+    fresh_cfg(false)
+}
+
+/// `alt`: an App with other staking parameters, validator commission and balances (non-interference
+/// must also hold between differently configured Apps of one process).
+fn fresh_cfg(alt: bool) -> Inst {
     let api = MockApi::default();
     let u = api.addr_make("u").into_string();
     let v = api.addr_make("v").into_string();
     let ua = Addr::unchecked(&u);
     let block = mock_env().block;
     let app: DApp = AppBuilder::new().with_storage(SnapStorage::new()).build(|router, api, storage| {
-        router.bank.init_balance(storage, &ua, vec![coin(50, "x"), coin(50, "TOKEN")]).unwrap();
-        router.bank.init_balance(storage, &Addr::unchecked(&v), vec![coin(50, "TOKEN")]).unwrap();
-        router.staking.setup(storage, StakingInfo { bonded_denom: "TOKEN".into(), unbonding_time: 60, apr: Decimal::percent(10) }).unwrap();
-        router.staking.add_validator(api, storage, &block, Validator::create("val".into(), Decimal::percent(10), Decimal::percent(90), Decimal::percent(1))).unwrap();
+        if alt {
+            router.bank.init_balance(storage, &ua, vec![coin(70, "x"), coin(40, "ualt"), coin(9, "TOKEN")]).unwrap();
+            router.bank.init_balance(storage, &Addr::unchecked(&v), vec![coin(30, "ualt")]).unwrap();
+            router.staking.setup(storage, StakingInfo { bonded_denom: "ualt".into(), unbonding_time: 7, apr: Decimal::percent(50) }).unwrap();
+            router.staking.add_validator(api, storage, &block, Validator::create("val".into(), Decimal::percent(25), Decimal::percent(90), Decimal::percent(1))).unwrap();
+        } else {
+            router.bank.init_balance(storage, &ua, vec![coin(50, "x"), coin(50, "TOKEN")]).unwrap();
+            router.bank.init_balance(storage, &Addr::unchecked(&v), vec![coin(50, "TOKEN")]).unwrap();
+            router.staking.setup(storage, StakingInfo { bonded_denom: "TOKEN".into(), unbonding_time: 60, apr: Decimal::percent(10) }).unwrap();
+            router.staking.add_validator(api, storage, &block, Validator::create("val".into(), Decimal::percent(10), Decimal::percent(90), Decimal::percent(1))).unwrap();
+        }
     });
-    let mut i = Inst { app, contracts: vec![], u, v };
+    let mut i = Inst { app, contracts: vec![], u, v, denom: if alt { "ualt" } else { "TOKEN" } };
     // one code is part of every fresh instance, so that instantiations need no preceding store
     i.app.store_code(Box::new(Puppet { tag: 1 }));
     i
@@ -119,8 +133,8 @@ fn apply(i: &mut Inst, op: DOp) -> String {
         },
         DOp::Send => resp(i.app.execute(u.clone(), BankMsg::Send { to_address: i.v.clone(), amount: vec![coin(3, "x")] }.into())),
         DOp::Mint => resp(i.app.sudo(SudoMsg::Bank(BankSudo::Mint { to_address: i.v.clone(), amount: vec![coin(5, "y")] }))),
-        DOp::Delegate => resp(i.app.execute(u.clone(), StakingMsg::Delegate { validator: "val".into(), amount: coin(4, "TOKEN") }.into())),
-        DOp::Delegate2 => resp(i.app.execute(Addr::unchecked(&i.v), StakingMsg::Delegate { validator: "val".into(), amount: coin(3, "TOKEN") }.into())),
+        DOp::Delegate => resp(i.app.execute(u.clone(), StakingMsg::Delegate { validator: "val".into(), amount: coin(4, i.denom) }.into())),
+        DOp::Delegate2 => resp(i.app.execute(Addr::unchecked(&i.v), StakingMsg::Delegate { validator: "val".into(), amount: coin(3, i.denom) }.into())),
         DOp::Block => {
             i.app.update_block(next_block);
             format!("block={:?}", i.app.block_info())
@@ -144,7 +158,11 @@ fn finish_transcript(i: &Inst, mut lines: Vec<String>) -> Vec<String> {
 }
 
 fn solo(h: &[DOp]) -> Vec<String> {
-    let mut i = fresh();
+    solo_cfg(h, false)
+}
+
+fn solo_cfg(h: &[DOp], alt: bool) -> Vec<String> {
+    let mut i = fresh_cfg(alt);
     let lines: Vec<String> = h.iter().map(|op| apply(&mut i, *op)).collect();
     finish_transcript(&i, lines)
 }
@@ -199,12 +217,69 @@ pub struct DetOut {
     pub distinct_transcripts: usize,
 }
 
-pub fn explore(ctx: &Ctx, report: bool) -> DetOut {
+pub fn explore(ctx: &Ctx, report: bool, reversed: bool) -> DetOut {
     set_watch(Watch::default());
     let (n_a, len_a, n_b, len_b) = ctx.tier.pick((11, 4, 5, 3), (15, 5, 8, 3));
+    // (0) differently configured Apps in one process. This stage runs first and on one thread, so
+    // that the order in which the two configurations are first used in this process is fixed:
+    // standard first here, the other one first in the second process (`reversed`). Whatever a
+    // configuration leaves behind in the process shows as a digest difference between the two.
+    let alpha0 = [DOp::Delegate, DOp::Delegate2, DOp::Block, DOp::Inst, DOp::Send, DOp::Mint];
+    let h0 = histories(&alpha0, ctx.tier.pick(3, 4));
+    let mut solos0: [Vec<Vec<String>>; 2] = [vec![], vec![]];
+    let mut digest_0 = 0u64;
+    for alt in if reversed { [true, false] } else { [false, true] } {
+        for h in &h0 {
+            let t = solo_cfg(h, alt);
+            digest_0 = digest_0.wrapping_add(hash64(&(alt, h, &t), 5));
+            solos0[alt as usize].push(t);
+        }
+    }
+    let ops = AtomicU64::new(0);
+    let runs0 = AtomicU64::new(0);
+    let short0: Vec<usize> = (0..h0.len()).filter(|i| h0[*i].len() <= 2).collect();
+    short0.par_iter().for_each(|i1| {
+        set_watch(Watch::default());
+        for i2 in &short0 {
+            let (h1, h2) = (&h0[*i1], &h0[*i2]);
+            for il in interleavings(h1.len(), h2.len()) {
+                // the differently configured App is built first in half of the runs
+                for alt_first in [false, true] {
+                    let (mut a, mut b);
+                    if alt_first {
+                        b = fresh_cfg(true);
+                        a = fresh_cfg(false);
+                    } else {
+                        a = fresh_cfg(false);
+                        b = fresh_cfg(true);
+                    }
+                    let (mut l1, mut l2) = (vec![], vec![]);
+                    let (mut p1, mut p2) = (0, 0);
+                    for second in &il {
+                        if *second {
+                            l2.push(apply(&mut b, h2[p2]));
+                            p2 += 1;
+                        } else {
+                            l1.push(apply(&mut a, h1[p1]));
+                            p1 += 1;
+                        }
+                    }
+                    let t1 = finish_transcript(&a, l1);
+                    let t2 = finish_transcript(&b, l2);
+                    runs0.fetch_add(1, Relaxed);
+                    ops.fetch_add(il.len() as u64, Relaxed);
+                    if (t1 != solos0[0][*i1] || t2 != solos0[1][*i2]) && report {
+                        ctx.violation(
+                            "c19:differently-configured-instances-interfere",
+                            json!({"history1": format!("{:?}", h1), "history2 (other staking parameters)": format!("{:?}", h2), "interleaving": il, "other_built_first": alt_first, "app1": t1, "app1_solo": solos0[0][*i1], "app2": t2, "app2_solo": solos0[1][*i2]}),
+                        );
+                    }
+                }
+            }
+        }
+    });
     // (a) every history twice on independently built apps
     let hs = histories(&ALL[..n_a], len_a);
-    let ops = AtomicU64::new(0);
     let distinct = Distinct::default();
     let digest_a: u64 = hs
         .par_chunks(64)
@@ -280,11 +355,11 @@ pub fn explore(ctx: &Ctx, report: bool) -> DetOut {
             d
         })
         .reduce(|| 0, |a, b| a.wrapping_add(b));
-    DetOut { histories: hs.len() as u64, pairs, interleaved_runs: runs.load(Relaxed), ops: ops.load(Relaxed), digest: digest_a ^ digest_b.rotate_left(17), distinct_transcripts: distinct.len() }
+    DetOut { histories: hs.len() as u64 + 2 * h0.len() as u64, pairs: pairs + (short0.len() * short0.len()) as u64, interleaved_runs: runs.load(Relaxed) + runs0.load(Relaxed), ops: ops.load(Relaxed), digest: digest_a ^ digest_b.rotate_left(17) ^ digest_0.rotate_left(31), distinct_transcripts: distinct.len() }
 }
 
 pub fn run_c19(ctx: &Ctx) -> i32 {
-    let out = explore(ctx, true);
+    let out = explore(ctx, true, false);
     // (c) the whole bounded exploration repeated in a second OS process with another thread count
     let exe = std::env::current_exe().unwrap();
     let child = std::process::Command::new(exe).arg("C19-digest").arg(ctx.tier.name()).env("VERIF_THREADS", "3").output();
@@ -308,7 +383,7 @@ pub fn run_c19(ctx: &Ctx) -> i32 {
         "traces_validated_against_impl": out.histories + out.interleaved_runs,
         "evaluations": out.histories + out.interleaved_runs,
         "distinct_nontrivial": out.distinct_transcripts,
-        "rule": "(a) every history over the operation alphabet up to the length bound, run on two independently built Apps, transcripts (results, events, data, code ids, addresses, checksums, invocation traces, final raw dump) compared; (b) every ordered pair of shorter histories on two Apps in one thread under every interleaving, each transcript compared with its solo transcript; (c) digest of everything recomputed in a second OS process with 3 worker threads; distinct_nontrivial = distinct transcripts",
+        "rule": "(a) every history over the operation alphabet up to the length bound, run on two independently built Apps, transcripts (results, events, data, code ids, addresses, checksums, invocation traces, final raw dump) compared; (b) every ordered pair of shorter histories on two Apps in one thread under every interleaving, each transcript compared with its solo transcript; (0) the same with a second, differently configured App (other bonded denomination, unbonding time, rate, commission, balances): solo transcripts of both configurations, and every pair of short histories under every interleaving and both construction orders; (c) digest of everything recomputed in a second OS process with 3 worker threads, which uses the two configurations in the opposite order; distinct_nontrivial = distinct transcripts",
         "exhaustive": true,
         "histories": out.histories, "history_pairs": out.pairs, "interleaved_runs": out.interleaved_runs,
         "digest": mine, "digest_second_process": other,
@@ -322,11 +397,11 @@ pub fn run_c19(ctx: &Ctx) -> i32 {
 
 pub fn print_digest(tier: Tier) {
     let ctx = Ctx::new("C19", tier);
-    let out = explore(&ctx, false);
+    let out = explore(&ctx, false, true);
     println!("DIGEST {:016x}", out.digest);
 }
 
 pub fn replay_c19(ctx: &Ctx, _case: &Value) {
     // the whole exploration is cheap: re-run it
-    let _ = explore(ctx, true);
+    let _ = explore(ctx, true, false);
 }
